@@ -536,7 +536,39 @@ func (p *Prog) buildCut(fn *ssa.Function, gates []Gate) (cut *Cut, nEdges int) {
 			continue
 		}
 		var del [2]bool
-		tFacts, fFacts := condAtoms(ifi)
+		tFacts, fFacts, tAlt, fAlt := condAtoms2(ifi)
+		// an indefinite edge passes iff every alternative passes some gate of the disjunction
+		allAlt := func(alts []condFact) bool {
+			if len(alts) == 0 {
+				return false
+			}
+			for _, fc := range alts {
+				one := false
+				for _, g := range gates {
+					if g.Edges == nil {
+						continue
+					}
+					fake := &ssa.If{Cond: fc.v}
+					t, f := g.Edges(p, fake)
+					if t && f {
+						continue
+					}
+					if (fc.truth && t) || (!fc.truth && f) {
+						one = true
+					}
+				}
+				if !one {
+					return false
+				}
+			}
+			return true
+		}
+		if allAlt(tAlt) {
+			del[0] = true
+		}
+		if allAlt(fAlt) {
+			del[1] = true
+		}
 		for _, g := range gates {
 			if g.Edges == nil {
 				continue
@@ -586,9 +618,18 @@ type condFact struct {
 // every operand is true, on the false edge of an or-form every operand is false; the other edge of
 // such a phi carries no definite fact.
 func condAtoms(ifi *ssa.If) (tFacts, fFacts []condFact) {
+	t, f, _, _ := condAtoms2(ifi)
+	return t, f
+}
+
+// condAtoms2 additionally returns the *alternatives* of the indefinite edge: on the false edge of
+// an and-form at least one operand is false (fAlt lists "operand false" facts), on the true edge
+// of an or-form at least one operand is true (tAlt). Such an edge passes a gate iff every
+// alternative individually passes it.
+func condAtoms2(ifi *ssa.If) (tFacts, fFacts, tAlt, fAlt []condFact) {
 	phi, ok := ifi.Cond.(*ssa.Phi)
 	if !ok || phi.Block().Comment != "binop.done" {
-		return []condFact{{ifi.Cond, true}}, []condFact{{ifi.Cond, false}}
+		return []condFact{{ifi.Cond, true}}, []condFact{{ifi.Cond, false}}, nil, nil
 	}
 	and, or := true, true
 	var facts []condFact
@@ -609,7 +650,7 @@ func condAtoms(ifi *ssa.If) (tFacts, fFacts []condFact) {
 		pred := phi.Block().Preds[i]
 		pif, ok := pred.Instrs[len(pred.Instrs)-1].(*ssa.If)
 		if !ok {
-			return []condFact{{ifi.Cond, true}}, []condFact{{ifi.Cond, false}}
+			return []condFact{{ifi.Cond, true}}, []condFact{{ifi.Cond, false}}, nil, nil
 		}
 		pt, pf := condAtoms(pif)
 		if pred.Succs[0] == phi.Block() {
@@ -619,13 +660,22 @@ func condAtoms(ifi *ssa.If) (tFacts, fFacts []condFact) {
 		}
 	}
 	if last == nil || and == or {
-		return []condFact{{ifi.Cond, true}}, []condFact{{ifi.Cond, false}}
+		return []condFact{{ifi.Cond, true}}, []condFact{{ifi.Cond, false}}, nil, nil
 	}
 	lt, lf := condAtoms(&ssa.If{Cond: last})
-	if and {
-		return append(facts, lt...), nil
+	neg := func(fs []condFact) []condFact {
+		var out []condFact
+		for _, f := range fs {
+			out = append(out, condFact{f.v, !f.truth})
+		}
+		return out
 	}
-	return nil, append(facts, lf...)
+	if and {
+		all := append(facts, lt...)
+		return all, nil, nil, neg(all)
+	}
+	all := append(facts, lf...)
+	return nil, all, neg(all), nil
 }
 
 // MustPassResult is the outcome for one target.
